@@ -13,11 +13,12 @@ Three oracle layers per execution
  (ii)  observed work: `t1.heapq`, `t1.defaultdict` (the activation accumulator) and the adjacency returned by
        `store.csr` are counting proxies; the reported counters must equal the work the proxies saw, the
        budgets must hold for the *performed* work too, and no node at/over its budget may be expanded;
- (iii) a boring reference propagation (plain list scanned for the best entry) -> identical per-graph deltas,
+ (iii) a boring reference propagation (plain list kept sorted best-first) -> identical per-graph deltas,
        counters, max_delta, final activations and pop trace.
 """
 from __future__ import annotations
 
+import bisect
 import collections
 import heapq as _real_heapq
 import itertools
@@ -51,12 +52,17 @@ TEXTS = [
 EDGE_MULT = {"supports": 1.0, "associates": 0.6, "contradicts": 0.8}
 UNKNOWN_MULT = 0.6              # unknown relation is treated like the store's default relation "associates"
 
+# "loose" pop budget: never binding on converging walks (<= ~40 pops here) but binding on the few graphs whose walk
+# branches without reaching the node budget (two self-loops of opposite sign on one node: the engine default of 10^4
+# pops would be spent in full on each of their ~10^3 cases)
+LOOSE_Q = 128
+
 DIMS = [
     ("decay", ["exp", "quad"]),
     ("radius", [4, 0, 1]),
     ("iter_cap", [50, 0, 1]),
     ("layers", [50, 0, 1]),
-    ("queue", [10000, 0, 1, 2]),
+    ("queue", [LOOSE_Q, 0, 1, 2]),
     ("node_budget", [1.5, 0.4]),
     ("relax", [None, 0, 1]),
     ("slice_iters", [None, 0, 1, 3]),
@@ -301,7 +307,7 @@ def params(dev: dict) -> dict:
         "radius": g("radius", 4),
         "iter_cap": g("iter_cap", 50),
         "layers": g("layers", 50),
-        "queue": g("queue", 10000),
+        "queue": g("queue", LOOSE_Q),
         "node_budget": g("node_budget", 1.5),
         "relax": g("relax", None),
         "slice_iters": g("slice_iters", None),
@@ -418,8 +424,8 @@ def decay_of(mode, d):
 
 # ------------------------------------------------------------------------------------------------ reference propagation
 def ref_one_graph(nodes, edges, text, P):
-    """Boring reference: the frontier is a plain list, the best entry (larger |contribution|, then node id,
-    then signed value) is found by scanning.  Returns a dict of counters, touched ids, final activations,
+    """Boring reference: the frontier is a plain list kept sorted, best entry (larger |contribution|, then node id,
+    then signed value) first.  Returns a dict of counters, touched ids, final activations,
     pop trace and a `fragile` flag (a decision depended on a difference below 1e-12)."""
     R = {"pops": 0, "iters": 0, "propagations": 0, "radius_cap_hits": 0, "layer_cap_hits": 0, "node_budget_hits": 0,
          "max_delta": 0.0, "frontier_evicted": 0, "dedup_hits": 0, "visited_evicted": 0,
@@ -448,16 +454,14 @@ def ref_one_graph(nodes, edges, text, P):
         out_edges.setdefault(a, []).append((b, w, r))
     acc, dist, frontier = {}, {}, []
 
-    def order(ent):
-        return (-abs(ent[1]), ent[0], ent[1])
-
+    # the frontier is a plain list kept sorted best-first: entries (-|value|, node, value) compare exactly in the
+    # documented order (larger |contribution|, then node id, then signed value)
     def push(node, val):
         if ring is not None and node in ring:
             R["dedup_hits"] += 1
             return
-        frontier.append((node, val))
+        bisect.insort(frontier, (-abs(val), node, val))
         if fcap is not None and len(frontier) > fcap:
-            frontier.sort(key=order)
             R["frontier_evicted"] += len(frontier) - fcap
             del frontier[fcap:]
         if ring is not None:
@@ -473,12 +477,13 @@ def ref_one_graph(nodes, edges, text, P):
     layers_done = 0
     stop = False
     while frontier and R["pops"] < Q and not stop:
-        best = min(frontier, key=order)
+        best = frontier.pop(0)
         for ent in frontier:
-            if ent[0] != best[0] and abs(ent[1]) != abs(best[1]) and abs(abs(ent[1]) - abs(best[1])) < TOL:
+            if ent[0] - best[0] >= TOL:
+                break
+            if ent[1] != best[1] and ent[0] != best[0]:
                 R["fragile"] = True
-        frontier.remove(best)
-        u, w = best
+        _neg, u, w = best
         R["pops"] += 1
         R["trace"].append((u, w))
         if visited is not None:
